@@ -12,6 +12,7 @@ import subprocess
 import sys
 
 pid = sys.argv[1]
+offset = int(sys.argv[2]) if len(sys.argv) > 2 else 0  # round 2 is kept as CXX-3, CXX-4
 wt = "/tmp/wt-%s" % pid
 out = os.path.join(wt, "_out")
 HERE = os.path.dirname(os.path.dirname(os.path.abspath(__file__)))
@@ -42,7 +43,7 @@ def main():
         print(pid, n, "clean-demo rc=%d mutant-demo rc=%d tests=%s -> %s" % (r0.returncode, r1.returncode, t.stdout.strip()[:40], "KEEP" if ok else "REJECT"))
         if not ok:
             continue
-        dst = os.path.join(HERE, "seeded", "%s-%d" % (pid, n))
+        dst = os.path.join(HERE, "seeded", "%s-%d" % (pid, n + offset))
         os.makedirs(dst, exist_ok=True)
         shutil.copy(diff, os.path.join(dst, "patch.diff"))
         src = open(demo).read().replace(wt, "/repo")
@@ -52,7 +53,7 @@ def main():
             shutil.copy(notes, os.path.join(dst, "NOTES.md"))
         meta = {
             "property": pid,
-            "origin": "independent sub-agent given only the property text and a scratch worktree",
+            "origin": "independent sub-agent given only the property text and a scratch worktree" + (" (second round: also told what the first-round changes were, to avoid repeating them)" if offset else ""),
             "files_touched": [l.split("|")[0].strip() for l in touched.splitlines() if "|" in l],
             "verified": {"tests_with_patch": t.stdout.strip(), "demo_rc_clean_tree": r0.returncode, "demo_rc_with_patch": r1.returncode,
                          "how": "in the scratch worktree: git apply; pytest (176 passed); demo exits 1; git checkout; demo exits 0"},
